@@ -124,7 +124,9 @@ func c13Scenario(c *choice.Ctx, rep *report.R, minK, maxK int, rich bool, fullSe
 	stallWrites := kind == "tcp" && accepted >= 2 && c.Choose(2, "park-writes") == 1
 	// an earlier connection of the same listener sent a length prefix and part of a body and went away: nothing of it may leak
 	// into this connection (recycled per-connection state)
-	prevConn := c.Choose(2, "previous-connection-left-a-partial-frame") == 1
+	prevMode := c.Choose(3, "previous-connection") // 0 none, 1 left a partial frame, 2 was closed with a query in flight that is answered afterwards
+	prevConn := prevMode == 1
+	prevInflight := prevMode == 2
 	// the client pauses for longer than the idle timeout between two segments while its earlier queries are still being handled:
 	// the listener may close the connection, but whatever it sends stays well-formed and answers only queries that were sent
 	pause := kind == "tcp" && !stallWrites && len(segs) >= 2 && k >= 2 && c.Choose(2, "pause-longer-than-idle-timeout") == 1
@@ -136,8 +138,13 @@ func c13Scenario(c *choice.Ctx, rep *report.R, minK, maxK int, rich bool, fullSe
 	for _, s := range segs {
 		segLens = append(segLens, len(s))
 	}
-	desc := fmt.Sprintf("listener=%s k=%d limit=%d segments=%v completion=%v parkWrites=%v previousConnPartialFrame=%v pause>idle=%v", kind, k, limit, segLens, perm, stallWrites, prevConn, pause)
+	desc := fmt.Sprintf("listener=%s k=%d limit=%d segments=%v completion=%v parkWrites=%v previousConn=%d pause>idle=%v", kind, k, limit, segLens, perm, stallWrites, prevMode, pause)
 	fail := func(sig, msg string) {
+		if prevMode != 0 && sig != "ownership" {
+			// with an earlier connection in the history a wrong outcome means that per-connection state recycled from it (or still
+			// held by its late callbacks) leaked into this connection: also C20's subject
+			sig = "recycled-state:" + sig
+		}
 		rep.Violate("C13:"+kind+":"+sig, msg+"\n  "+desc, map[string]any{"Choices": c.Choices()})
 	}
 	v, err := vNewRouter(c03Config("forward"), "u1")
@@ -154,9 +161,13 @@ func c13Scenario(c *choice.Ctx, rep *report.R, minK, maxK int, rich bool, fullSe
 	switch kind {
 	case "tcp":
 		srv := v.newTCPServer(limit, idleTO)
-		if prevConn {
+		if prevConn || prevInflight {
 			p0 := v.tcpClient(srv, vClientV4, vLocalV4)
-			p0.Send(partial)
+			if prevInflight {
+				p0.SendMsg(refdns.Query(0x13F0, refdns.N("previous", "example", "test"), 1, 1))
+			} else {
+				p0.Send(partial)
+			}
 			wait()
 			p0.Close()
 			wait()
@@ -170,17 +181,35 @@ func c13Scenario(c *choice.Ctx, rep *report.R, minK, maxK int, rich bool, fullSe
 		written = func() []byte { return sc.impl.Written() }
 	default:
 		gsrv := v.newGnetServer(limit, 100*time.Second)
-		if prevConn {
+		if prevConn || prevInflight {
 			g0 := v.gnetClient(gsrv, vClientV4, vLocalV4)
-			g0.Send(partial)
+			if prevInflight {
+				g0.Send(refdns.Frame(refdns.Query(0x13F0, refdns.N("previous", "example", "test"), 1, 1).Encode(false)))
+			} else {
+				g0.Send(partial)
+			}
 			wait()
 			g0.Close()
 			wait()
-			g0.Stop()
+			if !prevInflight {
+				g0.Stop()
+			}
 		}
 		g := v.gnetClient(gsrv, vClientV4, vLocalV4)
 		send = func(seg []byte) { g.Send(seg) }
 		written = g.Written
+	}
+	upOffset := 0
+	if prevInflight {
+		// the previous connection's query is answered now, when that connection is long gone and this one has been opened
+		wait()
+		for _, p := range u.Pending() {
+			if p.Msg != nil {
+				p.Reply(env.Answer(p.Msg, 99, 60).Encode(false))
+			}
+		}
+		wait()
+		upOffset = len(u.Queries())
 	}
 	for i, s := range segs {
 		if pause && i == len(segs)-1 {
@@ -192,8 +221,8 @@ func c13Scenario(c *choice.Ctx, rep *report.R, minK, maxK int, rich bool, fullSe
 	}
 	// every frame must have been decoded exactly once: accepted ones are at the upstream, the surplus refused
 	pend := u.Pending()
-	if len(u.Queries()) != accepted && !pause {
-		fail("decode-count", fmt.Sprintf("%d queries reached the upstream, expected %d of %d frames (limit %d)", len(u.Queries()), accepted, k, limit))
+	if len(u.Queries())-upOffset != accepted && !pause {
+		fail("decode-count", fmt.Sprintf("%d queries reached the upstream, expected %d of %d frames (limit %d)", len(u.Queries())-upOffset, accepted, k, limit))
 	}
 	// the upstream answers in the chosen order
 	for _, pi := range perm {
@@ -321,7 +350,7 @@ func TestVerifC13(t *testing.T) {
 	coarseK := report.ParamInt("COARSEK", 3)
 	full := report.ParamInt("FULLSEG", 0) == 1
 	rep.Rule = fmt.Sprintf("E3 differential: k in 1..%d pipelined queries (distinct ids, 36..110 byte frames; every query but the first carries a complete framed query with an id nobody sent inside an EDNS padding option, and the mid-body cut falls right in front of it) x every subset of the candidate cuts {inside the length prefix, prefix|body, after the first body byte, mid body, before the last byte, frame|frame}; k = %d with the coarse cuts {inside prefix, mid body, frame|frame}%s "+
-		"x per-connection limit {100,1,2} x every completion order of the accepted handlers x {responses written directly, response writes parked and released in reverse order} x {fresh listener, an earlier connection left a partial frame behind} x (tcp) {no pause, a pause longer than the idle timeout before the last segment while queries are in flight}; the same script is fed to tcpServer.handleConn and to gnetServer.OnTraffic (fake gnet.Conn, one OnTraffic per segment); "+
+		"x per-connection limit {100,1,2} x every completion order of the accepted handlers x {responses written directly, response writes parked and released in reverse order} x {fresh listener, an earlier connection left a partial frame behind, an earlier connection was closed with a query in flight that is answered after this connection was opened} x (tcp) {no pause, a pause longer than the idle timeout before the last segment while queries are in flight}; the same script is fed to tcpServer.handleConn and to gnetServer.OnTraffic (fake gnet.Conn, one OnTraffic per segment); "+
 		"oracle: every frame decoded exactly once, response stream is a concatenation of well-formed frames, one response per query id, surplus over the limit gets REFUSED, none dropped",
 		maxK, coarseK, map[bool]string{true: "; a single 19-byte query in every one of its 2^18 segmentations", false: ""}[full])
 	bubble(t, func() {
